@@ -1039,39 +1039,122 @@ type fixpointSpec struct {
 // checkFixpoint verifies the least-fixpoint template on fn (see DESIGN.md R6); returns "" or the deviation.
 func checkFixpoint(c *Ctx, fn *FuncRef, spec fixpointSpec) string {
 	info := fn.Pkg.TypesInfo
+	// pass loop and its progress variable P. Accepted forms:
+	//   for { P = 0|false; …; if P == 0 | !P { break } }        (P a counter or a flag)
+	//   P := true; for P { P = false; … }                       (P a flag)
+	// with P++ / P = true next to the mark, and no other write to P inside the loop.
 	var outer *ast.ForStmt
 	for _, s := range fn.Decl.Body.List {
-		if fs, ok := s.(*ast.ForStmt); ok && fs.Cond == nil && fs.Init == nil && outer == nil {
+		if fs, ok := s.(*ast.ForStmt); ok && fs.Init == nil && fs.Post == nil && outer == nil {
 			outer = fs
 		}
 	}
-	if outer == nil || len(outer.Body.List) < 3 {
-		return "no `for { … }` pass loop"
+	if outer == nil {
+		return "no pass loop (`for { … }` or `for changed { … }`)"
 	}
-	// first statement: change = 0
+	if len(outer.Body.List) < 2 {
+		return "the change counter / flag is not reset at the start of every pass: a pass whose last rule changes nothing would end the iteration although earlier rules changed something"
+	}
+	isZero := func(e ast.Expr) bool {
+		if v, isC := constInt(info, e); isC && v == 0 {
+			return true
+		}
+		cv := constOf(info, e)
+		return cv != nil && cv.Kind() == constant.Bool && !constant.BoolVal(cv)
+	}
+	isTrue := func(e ast.Expr) bool {
+		cv := constOf(info, e)
+		return cv != nil && cv.Kind() == constant.Bool && constant.BoolVal(cv)
+	}
+	// first statement: P = 0 / P = false / P := false
 	var change types.Object
-	if as, ok := outer.Body.List[0].(*ast.AssignStmt); ok && len(as.Lhs) == 1 && as.Tok == token.ASSIGN {
-		if v, isC := constInt(info, as.Rhs[0]); isC && v == 0 {
+	if as, ok := outer.Body.List[0].(*ast.AssignStmt); ok && len(as.Lhs) == 1 && len(as.Rhs) == 1 && (as.Tok == token.ASSIGN || as.Tok == token.DEFINE) {
+		if isZero(as.Rhs[0]) {
 			change = identObj(info, as.Lhs[0])
 		}
 	}
 	if change == nil {
-		return "the change counter is not reset to 0 at the start of every pass"
+		return "the change counter / flag is not reset at the start of every pass"
 	}
-	// last statement: if change == 0 { break }
-	last, ok := outer.Body.List[len(outer.Body.List)-1].(*ast.IfStmt)
 	exitOK := false
-	if ok {
-		if be, ok := unparen(last.Cond).(*ast.BinaryExpr); ok && be.Op == token.EQL && identObj(info, be.X) == change {
-			if v, isC := constInt(info, be.Y); isC && v == 0 && len(last.Body.List) == 1 {
-				if br, ok := last.Body.List[0].(*ast.BranchStmt); ok && br.Tok == token.BREAK {
+	if outer.Cond != nil {
+		// for P { … }: P must be true on entry
+		if identObj(info, unparen(outer.Cond)) == change {
+			entry := false
+			for _, s := range fn.Decl.Body.List {
+				if s == ast.Stmt(outer) {
+					break
+				}
+				switch x := s.(type) {
+				case *ast.AssignStmt:
+					if len(x.Lhs) == 1 && len(x.Rhs) == 1 && identObj(info, x.Lhs[0]) == change {
+						entry = isTrue(x.Rhs[0])
+					}
+				case *ast.DeclStmt:
+					if gd, ok := x.Decl.(*ast.GenDecl); ok {
+						for _, sp := range gd.Specs {
+							if vs, ok := sp.(*ast.ValueSpec); ok {
+								for i, nm := range vs.Names {
+									if info.Defs[nm] == change {
+										entry = i < len(vs.Values) && isTrue(vs.Values[i])
+									}
+								}
+							}
+						}
+					}
+				}
+			}
+			exitOK = entry
+			if !entry {
+				return "the pass loop `for " + change.Name() + " { … }` is not entered: the flag is not true before the loop"
+			}
+		}
+	} else if last, ok := outer.Body.List[len(outer.Body.List)-1].(*ast.IfStmt); ok && last.Else == nil && len(last.Body.List) == 1 {
+		if br, ok := last.Body.List[0].(*ast.BranchStmt); ok && br.Tok == token.BREAK && br.Label == nil {
+			switch cnd := unparen(last.Cond).(type) {
+			case *ast.BinaryExpr:
+				if cnd.Op == token.EQL && identObj(info, cnd.X) == change && isZero(cnd.Y) {
+					exitOK = true
+				}
+			case *ast.UnaryExpr:
+				if cnd.Op == token.NOT && identObj(info, cnd.X) == change {
 					exitOK = true
 				}
 			}
 		}
 	}
 	if !exitOK {
-		return "the pass loop does not end with `if change == 0 { break }`"
+		return "the pass loop does not end exactly when a whole pass changed nothing (`if change == 0 { break }`, `if !changed { break }` or `for changed { … }`)"
+	}
+	// writes to P inside the loop: the reset and the progress notes (P++ / P = true); anything else can lose a change
+	progress := map[ast.Stmt]bool{}
+	otherWrite := ""
+	ast.Inspect(outer.Body, func(n ast.Node) bool {
+		switch x := n.(type) {
+		case *ast.AssignStmt:
+			for i, l := range x.Lhs {
+				if identObj(info, l) != change || ast.Stmt(x) == outer.Body.List[0] {
+					continue
+				}
+				if len(x.Lhs) == len(x.Rhs) && x.Tok == token.ASSIGN && isTrue(x.Rhs[i]) {
+					progress[x] = true
+				} else {
+					otherWrite = "`" + exprString(l) + " " + x.Tok.String() + " …` at " + c.pos(x.Pos())
+				}
+			}
+		case *ast.IncDecStmt:
+			if identObj(info, x.X) == change {
+				if x.Tok == token.INC {
+					progress[x] = true
+				} else {
+					otherWrite = "`" + change.Name() + "--` at " + c.pos(x.Pos())
+				}
+			}
+		}
+		return true
+	})
+	if otherWrite != "" {
+		return "the change counter / flag is also written by " + otherWrite + ": a change noted earlier in the pass can be forgotten and the iteration stops before the fixpoint"
 	}
 	// rule loop
 	var rules *ast.RangeStmt
@@ -1190,7 +1273,7 @@ func checkFixpoint(c *Ctx, fn *FuncRef, spec fixpointSpec) string {
 	counted := false
 	if blk, ok := pm[markStmt].(*ast.BlockStmt); ok {
 		for _, s := range blk.List {
-			if id, ok := s.(*ast.IncDecStmt); ok && identObj(info, id.X) == change && id.Tok == token.INC {
+			if progress[s] {
 				counted = true
 			}
 		}
@@ -1258,36 +1341,13 @@ func c03f(c *Ctx, r *Report) {
 		return
 	}
 	info := f.Pkg.TypesInfo
-	// the fold loop: a `for {}` inside `if len(list) > 1`
-	var fold *ast.ForStmt
-	var outerIf *ast.IfStmt
-	ast.Inspect(f.Decl.Body, func(n ast.Node) bool {
-		is, ok := n.(*ast.IfStmt)
-		if !ok {
-			return true
-		}
-		be, ok := unparen(is.Cond).(*ast.BinaryExpr)
-		if !ok || be.Op != token.GTR {
-			return true
-		}
-		if call, ok := be.X.(*ast.CallExpr); !ok || builtinName(info, call) != "len" {
-			return true
-		}
-		if v, isC := constInt(info, be.Y); !isC || v != 1 {
-			return true
-		}
-		for _, s := range is.Body.List {
-			if fs, ok := s.(*ast.ForStmt); ok && fs.Cond == nil {
-				fold, outerIf = fs, is
-			}
-		}
-		return true
-	})
+	// the fold loop: the innermost loop that calls ResolveConflict (window form `for { … res = res[1:] }` or indexed
+	// form `for i := 1; i < len(list); i++ { … }`)
+	fold, _ := findFoldLoop(info, f.Decl)
 	if fold == nil {
-		r.Undecided(clause, "R4 DECISION-TABLE", f.Name+"/conflict-fold", c.pos(f.Decl.Pos()), "no pairwise fold loop under `len(actions) > 1`")
+		r.Undecided(clause, "R4 DECISION-TABLE", f.Name+"/conflict-fold", c.pos(f.Decl.Pos()), "no loop calls ResolveConflict: candidates of a cell are not folded pairwise")
 		return
 	}
-	_ = outerIf
 	pe := newPathEnum(info)
 	paths, err := pe.Enumerate(fold.Body.List)
 	if err != nil {
@@ -1347,6 +1407,35 @@ func c03f(c *Ctx, r *Report) {
 	}
 	r.Check(bad == "", clause, "R4 DECISION-TABLE", f.Name+"/warning-iff-unresolved", c.pos(fold.Pos()),
 		"inside `len(actions) > 1`: the `warning:` line and the default resolution happen exactly when ResolveConflict reports it cannot decide (a precedence is missing, C04.a)", bad)
+}
+
+// findFoldLoop returns the innermost for-loop of fd whose body calls (*LALR1).ResolveConflict, and that call.
+func findFoldLoop(info *types.Info, fd *ast.FuncDecl) (*ast.ForStmt, *ast.CallExpr) {
+	var fold *ast.ForStmt
+	var rcall *ast.CallExpr
+	var stack []*ast.ForStmt
+	var visit func(n ast.Node)
+	visit = func(n ast.Node) {
+		ast.Inspect(n, func(m ast.Node) bool {
+			if m == nil || m == n {
+				return true
+			}
+			switch x := m.(type) {
+			case *ast.ForStmt:
+				stack = append(stack, x)
+				visit(x.Body)
+				stack = stack[:len(stack)-1]
+				return false
+			case *ast.CallExpr:
+				if fn := callee(info, x); fn != nil && strings.HasSuffix(shortFuncName(fn), "LALR1).ResolveConflict") && len(stack) > 0 {
+					fold, rcall = stack[len(stack)-1], x
+				}
+			}
+			return true
+		})
+	}
+	visit(fd.Body)
+	return fold, rcall
 }
 
 // c03EndMarker: the end marker is seeded into DR of transition 0, rule 0 reduces (= accepts) on the end marker
